@@ -9,5 +9,11 @@ def parameter_get_at_instant {V : Type} (l : List (OFCore.Param.Entry V)) (d : I
   | some e => e.val
   | none => none
 
-def translated : List (String × Bool) := [("parameter_get_at_instant", true)]
+/-- `ParameterNodeAtInstant.__init__` (openfisca_core/parameters/parameter_node_at_instant.py): the loop over `node.children.items()` — each child read with `_get_at_instant` (`atI`), kept under its name when the result is not None, in dict order -/
+def node_at_instant_children {C S : Type} (atI : C → Int → Option S) (cs : List (String × C)) (d : Int) : List (String × S) :=
+  cs.filterMap (fun kc => match atI kc.2 d with
+    | some s => some (kc.1, s)
+    | none => none)
+
+def translated : List (String × Bool) := [("parameter_get_at_instant", true), ("node_at_instant_children", true)]
 end OFCore.Generated.Param
